@@ -201,9 +201,30 @@ PROPS["C14"] = _pool(
     "Sampled schedules; distinct interleavings (per-worker chunk sequences + completion order) are counted in the evidence.", "4 (C14)",
     probes=_POOL_PROBES + ["compared_with_reference", "single_item_checked", "fva_exact_checked", "deletion_exact_checked"])
 
+PROPS["C16"] = {
+    "engine": "samp", "level": "exploration", "quick_runs": 2500, "thorough_runs": 60000,
+    "quick_wall_cap": 900, "thorough_wall_cap": 3300, "run_cfg": {"run_timeout": 120},
+    "rule": ("one evaluation = one simulated sampler run: a generated feasible-ish network with finite bounds (homogeneous, forced, fixed or "
+             "mixed fluxes, optional extra linear constraint), 1-3 sampler calls (ACHR / OptGP via objects or sample(); n, thinning, nproj, "
+             "seed incl. None -> simulated clock, processes 1-4 through SimPool, reaction or solver-variable space), each seeded call repeated "
+             "after perturbing the global RNG and under a different pool schedule. distinct = distinct digests of (calls, schedule decisions); "
+             "non-trivial = at least one call returned samples."),
+    "assumptions": ["feasibility is judged with absolute tolerance 1e-6 (10x the sampler's documented tolerance model.tolerance) on the reference "
+                    "stoichiometry, bounds and extra constraints", "documented refusals (ValueError for a single-point or infeasible region) count "
+                    "as refusals, not violations", "intermediate points of the walk are not judged: the property speaks of returned samples"],
+    "components": _POOL_COMPONENTS, "probes": ["samples_checked", "seed_replay_checked", "validate_perturbation_checked", "pool_created"],
+    "level_text": ("Samplers run as seeded stochastic processes under a simulator that owns numpy's RNG, the default-seed clock and the process "
+                   "pool; every returned row is checked for feasibility independently of the sampler's own code, together with shape, columns, "
+                   "seed replay, validate() agreement and an unchanged model."),
+    "design_ref": "3.4, 4 (C16)",
+    "level_note": "Sampled models/knobs/seeds; OptGP fan-out through SimPool (spawn-style pickling of the sampler).",
+    "technique": "deterministic simulation: owned RNG/clock/pool, seeded sampler runs with replay + independent feasibility oracle",
+}
+
 ENGINES = {
     "hist": "seeded histories of public model operations on up to 3 live models vs. RefModel, raw-GLPK read-back, context/copy/restart operations",
     "pool": "analyses under SimPool (simulated multiprocessing.Pool, seeded scheduler) and the solver-verdict injector; exact rational LP oracle",
+    "samp": "ACHR/OptGP samplers under owned RNG, clock and SimPool; independent feasibility oracle and seed replay",
     "dlist": "seeded DictList operation histories vs. plain-list reference (failing operations are the faults)",
 }
 
